@@ -1,6 +1,6 @@
 (* Extract/Driver.v - entry points of the extracted model used by harness/ocaml/modeldrv.ml.
    Thin dispatch only; everything here is computation on the models. *)
-From Adm Require Import Base.Util Codec.IdCodecDefs gen.IdTraitsGen Codec.TimeDefs Heap.Exec Heap.More gen.PlansGen.
+From Adm Require Import Base.Util Codec.IdCodecDefs gen.IdTraitsGen Codec.TimeDefs Heap.Exec Heap.More gen.PlansGen Heap.Uniq.
 Local Open Scope N_scope.
 
 Fixpoint assoc_str {A} (k : list N) (l : list (list N * A)) : option A :=
@@ -47,3 +47,6 @@ Definition drv_docs (s : state) : list (positive * doc) := PM.elements (docs s).
 Definition drv_empty : state := empty_state.
 Definition drv_xexec (o : xop) (s : state) : state * (xvalue + exn) := xexec gen_plans o s.
 Definition drv_simple_object_ops := simple_object_ops.
+(* C05: the guard of the uniqueness theorem and the invariant itself, as computations *)
+Definition drv_op_ok (s : state) (o : op) : bool := op_ok_b s o.
+Definition drv_uniq (s : state) : bool := uniq_b s.
